@@ -9,6 +9,7 @@
 #include <cstdio>
 #include <cstdlib>
 #include <cstring>
+#include <dirent.h>
 #include <dlfcn.h>
 #include <fcntl.h>
 #include <map>
@@ -641,8 +642,28 @@ extern "C" int open64( const char* path, int flags, ...)
    return static_cast< int>( syscall( SYS_openat, AT_FDCWD, path, flags | O_LARGEFILE, mode));
 }
 
-extern "C" int openat( int dirfd, const char* path, int flags, ...)
+namespace {
+/// the *at() calls: a relative path below a simulated directory descriptor
+/// (what std::filesystem::remove_all and recursive iteration use)
+struct AtPath
 {
+   std::string  full;
+   const char*  p;
+   AtPath( int dirfd, const char* path): p( path)
+   {
+      if (path != nullptr && path[ 0] != '/' && simFd( dirfd) && w().fds[ dirfd].node->dir)
+      {
+         full = w().fds[ dirfd].path + "/" + path;
+         p = full.c_str();
+      }
+   }
+};
+}
+
+extern "C" int openat( int dirfd, const char* path_in, int flags, ...)
+{
+   const AtPath  at( dirfd, path_in);
+   const char*   path = at.p;
    mode_t  mode = 0;
    if (flags & (O_CREAT | O_TMPFILE))
    {
@@ -856,6 +877,273 @@ extern "C" int mkdir( const char* path, mode_t mode)
    return fn( path, mode);
 }
 
+// ----- further calls a different but correct implementation may use
+
+namespace {
+
+/// pwrite()/pread(): the descriptor's own position stays where it is
+ssize_t simPwrite( int fd, const char* buf, size_t n, off_t off)
+{
+   OpenDesc&     d = w().fds[ fd];
+   const size_t  keep = d.off;
+   const bool    app = d.append;
+   d.off = static_cast< size_t>( off < 0 ? 0 : off);
+   d.append = false;
+   const ssize_t  r = simWrite( fd, buf, n);
+   d.off = keep;
+   d.append = app;
+   return r;
+}
+
+ssize_t simPread( int fd, char* buf, size_t n, off_t off)
+{
+   OpenDesc&     d = w().fds[ fd];
+   const size_t  keep = d.off;
+   d.off = static_cast< size_t>( off < 0 ? 0 : off);
+   const ssize_t  r = simRead( fd, buf, n);
+   d.off = keep;
+   return r;
+}
+
+int simTruncateNode( const std::shared_ptr< Node>& node, const std::string& path, off_t len)
+{
+   World&         wd = w();
+   const CallPos  pos = countCall( ccWrite, true);
+   if (wd.frozen) { errno = EIO; return -1; }
+   if (node == nullptr) { errno = ENOENT; return -1; }
+   if (node->dir) { errno = EISDIR; return -1; }
+   if (dueFault( ccWrite, true, pos, { "crash" }) != nullptr) { freeze( ccWrite, pos, " (truncate)"); errno = EIO; return -1; }
+   node->data.resize( static_cast< size_t>( len < 0 ? 0 : len), '\0');
+   ev( "truncate", path, static_cast< long long>( len), 0);
+   return 0;
+}
+
+/// directory streams over the simulated tree
+struct SimDir
+{
+   uint64_t                     magic;
+   int                          fd;      // -1: opened by path
+   std::vector< struct dirent>  entries;
+   size_t                       pos;
+};
+constexpr uint64_t  kDirMagic = 0x53494d4449523031ULL;
+constexpr int       kMaxDirs = 64;
+SimDir*             g_dirs[ kMaxDirs] = { nullptr };
+
+SimDir* asSimDir( DIR* dp)
+{
+   for (int k = 0; k < kMaxDirs; ++k)
+      if (g_dirs[ k] != nullptr && reinterpret_cast< DIR*>( g_dirs[ k]) == dp) return g_dirs[ k];
+   return nullptr;
+}
+
+DIR* makeSimDir( const std::string& path, int fd)
+{
+   countCall( ccStat, false);
+   auto  sd = new SimDir{ kDirMagic, fd, {}, 0 };
+   uint64_t  ino = 2;
+   for (const char* special : { ".", ".." })
+   {
+      struct dirent  e;
+      memset( &e, 0, sizeof( e));
+      e.d_ino = ino++;
+      e.d_type = DT_DIR;
+      e.d_reclen = sizeof( e);
+      strncpy( e.d_name, special, sizeof( e.d_name) - 1);
+      sd->entries.push_back( e);
+   }
+   for (auto const& name : listDir( path))
+   {
+      struct dirent  e;
+      memset( &e, 0, sizeof( e));
+      e.d_ino = ino++;
+      e.d_type = isDir( path + "/" + name) ? DT_DIR : DT_REG;
+      e.d_reclen = sizeof( e);
+      strncpy( e.d_name, name.c_str(), sizeof( e.d_name) - 1);
+      sd->entries.push_back( e);
+   }
+   for (int k = 0; k < kMaxDirs; ++k)
+      if (g_dirs[ k] == nullptr)
+      {
+         g_dirs[ k] = sd;
+         ev( "opendir", path, 0, static_cast< long long>( sd->entries.size()));
+         return reinterpret_cast< DIR*>( sd);
+      }
+   delete sd;
+   errno = EMFILE;
+   return nullptr;
+}
+
+} // namespace
+
+extern "C" ssize_t pwrite( int fd, const void* buf, size_t n, off_t off)
+{
+   if (simFd( fd)) return simPwrite( fd, static_cast< const char*>( buf), n, off);
+   static auto  fn = real( static_cast< ssize_t (*)( int, const void*, size_t, off_t)>( nullptr), "pwrite");
+   return fn( fd, buf, n, off);
+}
+
+extern "C" ssize_t pwrite64( int fd, const void* buf, size_t n, off64_t off)
+{
+   if (simFd( fd)) return simPwrite( fd, static_cast< const char*>( buf), n, static_cast< off_t>( off));
+   static auto  fn = real( static_cast< ssize_t (*)( int, const void*, size_t, off64_t)>( nullptr), "pwrite64");
+   return fn( fd, buf, n, off);
+}
+
+extern "C" ssize_t pread( int fd, void* buf, size_t n, off_t off)
+{
+   if (simFd( fd)) return simPread( fd, static_cast< char*>( buf), n, off);
+   static auto  fn = real( static_cast< ssize_t (*)( int, void*, size_t, off_t)>( nullptr), "pread");
+   return fn( fd, buf, n, off);
+}
+
+extern "C" ssize_t pread64( int fd, void* buf, size_t n, off64_t off)
+{
+   if (simFd( fd)) return simPread( fd, static_cast< char*>( buf), n, static_cast< off_t>( off));
+   static auto  fn = real( static_cast< ssize_t (*)( int, void*, size_t, off64_t)>( nullptr), "pread64");
+   return fn( fd, buf, n, off);
+}
+
+extern "C" int ftruncate( int fd, off_t len)
+{
+   if (simFd( fd)) { harvest( fd); return simTruncateNode( w().fds[ fd].node, w().fds[ fd].path, len); }
+   static auto  fn = real( static_cast< int (*)( int, off_t)>( nullptr), "ftruncate");
+   return fn( fd, len);
+}
+
+extern "C" int ftruncate64( int fd, off64_t len)
+{
+   if (simFd( fd)) { harvest( fd); return simTruncateNode( w().fds[ fd].node, w().fds[ fd].path, static_cast< off_t>( len)); }
+   static auto  fn = real( static_cast< int (*)( int, off64_t)>( nullptr), "ftruncate64");
+   return fn( fd, len);
+}
+
+extern "C" int truncate( const char* path, off_t len)
+{
+   if (isSim( path)) return simTruncateNode( find( norm( path)), norm( path), len);
+   static auto  fn = real( static_cast< int (*)( const char*, off_t)>( nullptr), "truncate");
+   return fn( path, len);
+}
+
+extern "C" int truncate64( const char* path, off64_t len)
+{
+   if (isSim( path)) return simTruncateNode( find( norm( path)), norm( path), static_cast< off_t>( len));
+   static auto  fn = real( static_cast< int (*)( const char*, off64_t)>( nullptr), "truncate64");
+   return fn( path, len);
+}
+
+extern "C" int renameat( int fd1, const char* from_in, int fd2, const char* to_in)
+{
+   const AtPath  a1( fd1, from_in), a2( fd2, to_in);
+   const char*   from = a1.p;
+   const char*   to = a2.p;
+   if (isSim( from) && isSim( to)) return rename( from, to);
+   static auto  fn = real( static_cast< int (*)( int, const char*, int, const char*)>( nullptr), "renameat");
+   return fn( fd1, from, fd2, to);
+}
+
+extern "C" int unlinkat( int dirfd, const char* path_in, int flags)
+{
+   const AtPath  at( dirfd, path_in);
+   const char*   path = at.p;
+   if (isSim( path)) return (flags & AT_REMOVEDIR) ? rmdir( path) : unlink( path);
+   static auto  fn = real( static_cast< int (*)( int, const char*, int)>( nullptr), "unlinkat");
+   return fn( dirfd, path, flags);
+}
+
+extern "C" int mkdirat( int dirfd, const char* path_in, mode_t mode)
+{
+   const AtPath  at( dirfd, path_in);
+   const char*   path = at.p;
+   if (isSim( path)) return mkdir( path, mode);
+   static auto  fn = real( static_cast< int (*)( int, const char*, mode_t)>( nullptr), "mkdirat");
+   return fn( dirfd, path, mode);
+}
+
+extern "C" int rmdir( const char* path)
+{
+   if (isSim( path))
+   {
+      if (!isDir( norm( path))) { errno = exists( norm( path)) ? ENOTDIR : ENOENT; return -1; }
+      if (!listDir( norm( path)).empty()) { errno = ENOTEMPTY; return -1; }
+      return simUnlink( path, true);
+   }
+   static auto  fn = real( static_cast< int (*)( const char*)>( nullptr), "rmdir");
+   return fn( path);
+}
+
+extern "C" DIR* opendir( const char* path)
+{
+   if (isSim( path))
+   {
+      const std::string  p = norm( path);
+      if (w().frozen) { errno = EIO; return nullptr; }
+      if (!exists( p)) { errno = ENOENT; return nullptr; }
+      if (!isDir( p)) { errno = ENOTDIR; return nullptr; }
+      return makeSimDir( p, -1);
+   }
+   static auto  fn = real( static_cast< DIR* (*)( const char*)>( nullptr), "opendir");
+   return fn( path);
+}
+
+extern "C" DIR* fdopendir( int fd)
+{
+   if (simFd( fd))
+   {
+      if (!w().fds[ fd].node->dir) { errno = ENOTDIR; return nullptr; }
+      return makeSimDir( w().fds[ fd].path, fd);
+   }
+   static auto  fn = real( static_cast< DIR* (*)( int)>( nullptr), "fdopendir");
+   return fn( fd);
+}
+
+extern "C" struct dirent* readdir( DIR* dp)
+{
+   if (SimDir* sd = asSimDir( dp))
+      return sd->pos < sd->entries.size() ? &sd->entries[ sd->pos++] : nullptr;
+   static auto  fn = real( static_cast< struct dirent* (*)( DIR*)>( nullptr), "readdir");
+   return fn( dp);
+}
+
+extern "C" struct dirent64* readdir64( DIR* dp)
+{
+   if (SimDir* sd = asSimDir( dp))
+      return sd->pos < sd->entries.size() ? reinterpret_cast< struct dirent64*>( &sd->entries[ sd->pos++]) : nullptr;
+   static auto  fn = real( static_cast< struct dirent64* (*)( DIR*)>( nullptr), "readdir64");
+   return fn( dp);
+}
+
+extern "C" void rewinddir( DIR* dp)
+{
+   if (SimDir* sd = asSimDir( dp)) { sd->pos = 0; return; }
+   static auto  fn = real( static_cast< void (*)( DIR*)>( nullptr), "rewinddir");
+   fn( dp);
+}
+
+extern "C" int dirfd( DIR* dp)
+{
+   if (SimDir* sd = asSimDir( dp))
+   {
+      if (sd->fd < 0) { errno = ENOTSUP; return -1; }
+      return sd->fd;
+   }
+   static auto  fn = real( static_cast< int (*)( DIR*)>( nullptr), "dirfd");
+   return fn( dp);
+}
+
+extern "C" int closedir( DIR* dp)
+{
+   if (SimDir* sd = asSimDir( dp))
+   {
+      for (int k = 0; k < kMaxDirs; ++k) if (g_dirs[ k] == sd) g_dirs[ k] = nullptr;
+      const int  fd = sd->fd;
+      delete sd;
+      return fd >= 0 ? close( fd) : 0;
+   }
+   static auto  fn = real( static_cast< int (*)( DIR*)>( nullptr), "closedir");
+   return fn( dp);
+}
+
 // ----- file status and access checks (std::filesystem, hand written checks)
 
 namespace {
@@ -945,15 +1233,19 @@ extern "C" int fstat64( int fd, struct stat64* st)
    return fn( fd, st);
 }
 
-extern "C" int fstatat( int dirfd, const char* path, struct stat* st, int flags)
+extern "C" int fstatat( int dirfd, const char* path_in, struct stat* st, int flags)
 {
+   const AtPath  at( dirfd, path_in);
+   const char*   path = at.p;
    if (isSim( path)) return simStat( path, st);
    static auto  fn = real( static_cast< int (*)( int, const char*, struct stat*, int)>( nullptr), "fstatat");
    return fn( dirfd, path, st, flags);
 }
 
-extern "C" int fstatat64( int dirfd, const char* path, struct stat64* st, int flags)
+extern "C" int fstatat64( int dirfd, const char* path_in, struct stat64* st, int flags)
 {
+   const AtPath  at( dirfd, path_in);
+   const char*   path = at.p;
    if (isSim( path)) return simStat( path, reinterpret_cast< struct stat*>( st));
    static auto  fn = real( static_cast< int (*)( int, const char*, struct stat64*, int)>( nullptr), "fstatat64");
    return fn( dirfd, path, st, flags);
